@@ -457,6 +457,18 @@ class PGPSignature(Armorable, ParentRef, PGPObject):
             """
             _data += re.subn(br'\r?\n', b'\r\n', subject)[0]
 
+        if self.type == SignatureType.ThirdParty_Confirmation:
+            """
+            When a signature is made over a Signature packet (type 0x50), the
+            hash data starts with the octet 0x88, followed by the four-octet
+            length of the signature, and then the body of the Signature packet.
+            (RFC 4880, 5.2.4) -- without a rule for this type only the trailer would be
+            hashed, and the signature would verify over every subject
+            """
+            if not isinstance(subject, PGPSignature) or not isinstance(subject._signature, SignatureV4):
+                raise TypeError("a third-party confirmation signature (0x50) is made over a signature packet")
+            _data += subject._signature.canonical_bytes()
+
         if self.type in {SignatureType.Generic_Cert, SignatureType.Persona_Cert, SignatureType.Casual_Cert,
                          SignatureType.Positive_Cert, SignatureType.Attestation, SignatureType.CertRevocation,
                          SignatureType.Subkey_Binding, SignatureType.PrimaryKey_Binding}:
